@@ -11,6 +11,12 @@
 #ifndef VF_HOOK_RELEASED        /* after the release (environment may run) */
 #define VF_HOOK_RELEASED(m, shared) ((void)0)
 #endif
+#ifndef VF_HOOK_TRY_FAILED      /* (struct vf_mutex* m): a try-lock (plain or timed, either mode) did not get m */
+#define VF_HOOK_TRY_FAILED(m) ((void)0)
+#endif
+#ifndef VF_HOOK_BLOCKING        /* (struct vf_mutex* m): a blocking lock()/lock_shared() of m starts */
+#define VF_HOOK_BLOCKING(m) ((void)0)
+#endif
 #ifndef VF_HOOK_CV_WAIT         /* (struct vf_cv* c, struct vf_lock* l): entering a wait */
 #define VF_HOOK_CV_WAIT(c, l) ((void)0)
 #endif
@@ -80,6 +86,7 @@ void vf_mutex_lock(struct vf_mutex *m)
   __CPROVER_assert(vf_held < VF_MAX_HELD,
                    "[L5] lock order: library code acquires a second mutex while holding one");
   VF_INC(vf_n_block);
+  VF_HOOK_BLOCKING(m);
   VF_INC(vf_n_acq_excl);
   m->excl_me = 1;
   vf_held++;
@@ -89,8 +96,10 @@ void vf_mutex_lock(struct vf_mutex *m)
 _Bool vf_mutex_try_lock_(struct vf_mutex *m)
 {
   VF_INC(vf_n_mutex_ops);
-  if (m->excl_me || m->shared_me > 0 || vf_nondet_bool())
+  if (m->excl_me || m->shared_me > 0 || vf_nondet_bool()) {
+    VF_HOOK_TRY_FAILED(m);
     return 0; /* held by someone (possibly me), or spurious failure */
+  }
   VF_INC(vf_n_acq_excl);
   m->excl_me = 1;
   vf_held++;
@@ -120,6 +129,7 @@ void vf_mutex_lock_shared(struct vf_mutex *m)
   __CPROVER_assert(vf_held < VF_MAX_HELD,
                    "[L5] lock order: library code acquires a second mutex while holding one");
   VF_INC(vf_n_block);
+  VF_HOOK_BLOCKING(m);
   VF_INC(vf_n_acq_shared);
   m->shared_me = 1;
   vf_held++;
@@ -129,8 +139,10 @@ void vf_mutex_lock_shared(struct vf_mutex *m)
 _Bool vf_mutex_try_lock_shared_(struct vf_mutex *m)
 {
   VF_INC(vf_n_mutex_ops);
-  if (m->excl_me || m->shared_me > 0 || vf_nondet_bool())
+  if (m->excl_me || m->shared_me > 0 || vf_nondet_bool()) {
+    VF_HOOK_TRY_FAILED(m);
     return 0;
+  }
   VF_INC(vf_n_acq_shared);
   m->shared_me = 1;
   vf_held++;
